@@ -34,12 +34,12 @@ type c18Call struct {
 	times  int
 }
 type c18Scen struct {
-	name    string
-	descs   []c18Desc
-	calls   []c18Call
-	reader  bool // a Current() reader thread
-	adder   *c18Desc
-	bound   int
+	name   string
+	descs  []c18Desc
+	calls  []c18Call
+	reader bool // a Current() reader thread
+	adder  *c18Desc
+	bound  int
 }
 
 var errC18 = errors.New("injected")
